@@ -20,6 +20,7 @@ type c09Shape struct {
 	Empty     bool   // empty-valued (only generated as an exception)
 	Exception bool
 	Important bool
+	ImpLast   bool // spelling only: $dnsrewrite...,important instead of $important,dnsrewrite...
 	// Canonical value: exactly one of CNAME / RCode!=NOERROR / (RR, Val).
 	CNAME string
 	RCode string
@@ -32,14 +33,20 @@ func (s c09Shape) text() string {
 	if s.Exception {
 		t = "@@" + t
 	}
-	if s.Important {
+	if s.Important && !s.ImpLast {
 		t += "important,"
 	}
 	if s.Empty {
-		return t + "dnsrewrite"
+		t += "dnsrewrite"
+	} else {
+		t += "dnsrewrite=" + s.Value
+	}
+	if s.Important && s.ImpLast {
+		// The other order of the two modifiers means the same.
+		t += ",important"
 	}
 
-	return t + "dnsrewrite=" + s.Value
+	return t
 }
 
 // sameValue implements "the same new CNAME, or the same response code and,
@@ -364,7 +371,23 @@ func c09Judge(c *core.Ctx, via string, seq []c09Shape, got []*rules.NetworkRule,
 		"DNSRewrites() of %v\n got  %v\n want %v", texts, gotTexts, refTexts)
 }
 
+// c09Spelling writes, in one evaluation of two, the $important modifier of
+// every rule of the sequence after $dnsrewrite.
+func c09Spelling(c *core.Ctx, seq []c09Shape) []c09Shape {
+	if c.Rng.Intn(2) == 0 {
+		return seq
+	}
+	out := append([]c09Shape(nil), seq...)
+	for i := range out {
+		out[i].ImpLast = true
+	}
+	c.Event("sequences_with_important_written_last", 1)
+
+	return out
+}
+
 func c09RunSeq(c *core.Ctx, seq []c09Shape) {
+	seq = c09Spelling(c, seq)
 	objs := make([]*rules.NetworkRule, len(seq))
 	for i, s := range seq {
 		r, err := rules.NewNetworkRule(s.text(), 1)
@@ -433,6 +456,7 @@ var c09Bystanders = []string{
 // c09RunEngine pushes a sequence through a DNS engine; the order of
 // DNSRewritesAll() is whatever the engine produces.
 func c09RunEngine(c *core.Ctx, seq []c09Shape) {
+	seq = c09Spelling(c, seq)
 	// Distinct rule texts only: the engine legitimately de-duplicates.
 	seen := map[string]bool{}
 	byText := map[string]c09Shape{}
